@@ -11,12 +11,13 @@ package harness
 // multistore, which includes every bank balance and the supply) is dumped and compared with the dump before.
 //
 // Trace lines (see lean/Comdex/Drv/Guards.lean):
-//   grd.msg   handler scn owner names admin brk esm cool price base | outcome parentDiffEmpty branchClean victimSame
+//   grd.msg   handler scn owner names admin brk esm price(1|0|p) base | outcome parentDiffEmpty branchClean victimSame
 //   grd.wasm  variant chain senderKind sender base | outcome(ok|err:guard|err:inner|panic) diffEmpty
 //   grd.sweep sweep brk esm base | started appDiffEmpty
 
 import (
 	"bytes"
+	"math/rand"
 	"crypto/sha256"
 	"encoding/hex"
 	"encoding/json"
@@ -28,12 +29,15 @@ import (
 
 	abci "github.com/cometbft/cometbft/abci/types"
 	tmproto "github.com/cometbft/cometbft/proto/tendermint/types"
+	"github.com/cosmos/cosmos-sdk/crypto/keys/secp256k1"
 	"github.com/cosmos/cosmos-sdk/store/rootmulti"
+	simtestutil "github.com/cosmos/cosmos-sdk/testutil/sims"
 	storetypes "github.com/cosmos/cosmos-sdk/store/types"
 	sdk "github.com/cosmos/cosmos-sdk/types"
 	sdkerrors "github.com/cosmos/cosmos-sdk/types/errors"
 
 	wasmkeeper "github.com/CosmWasm/wasmd/x/wasm/keeper"
+	wasmtypes "github.com/CosmWasm/wasmd/x/wasm/types"
 	wasmvmtypes "github.com/CosmWasm/wasmvm/types"
 
 	chain "github.com/comdex-official/comdex/app"
@@ -100,6 +104,11 @@ type c12World struct {
 	poolCoinDenom             string
 	mmOrderIDs                []uint64
 }
+
+// c12Key: deterministic secp256k1 keys, so that the thorough tier can SIGN the same messages and push them through DeliverTx
+func c12Key(name string) *secp256k1.PrivKey { return secp256k1.GenPrivKeyFromSecret([]byte("c12-key-" + name)) }
+
+func c12KeyAddr(name string) sdk.AccAddress { return sdk.AccAddress(c12Key(name).PubKey().Address()) }
 
 func c12Addr(i byte) sdk.AccAddress {
 	b := make([]byte, 20)
@@ -181,7 +190,7 @@ func c12Build(t *testing.T) *c12World {
 	w.app = chain.Setup(t, false)
 	w.t0 = time.Unix(1700000000, 0).UTC()
 	w.ctx = w.app.BaseApp.NewContext(false, tmproto.Header{Height: 10, Time: w.t0, ChainID: "comdex-dev-1"})
-	w.A, w.B, w.C, w.D, w.admin = c12Addr(0xA1), c12Addr(0xB2), c12Addr(0xC3), c12Addr(0xD4), c12Addr(0xAD)
+	w.A, w.B, w.C, w.D, w.admin = c12KeyAddr("A"), c12KeyAddr("B"), c12KeyAddr("C"), c12KeyAddr("D"), c12KeyAddr("admin")
 	for name, key := range w.app.CommitMultiStore().(*rootmulti.Store).StoreKeysByName() {
 		_ = name
 		if k, ok := key.(*storetypes.KVStoreKey); ok {
@@ -779,14 +788,18 @@ func (w *c12World) appOf(c c12Case) uint64 {
 
 func (w *c12World) emit(tr *Trace, c c12Case, scnName string, signer string, admin bool, scn c12Scn, base bool, r c12Result) {
 	owner := signer == c.owner
-	priceOK := true
+	// "1": every price the operation needs is active; "0": none of them is; "p": some are, some are not
+	priceOK := "1"
 	if scn.price == "none" && c.needs != "" {
-		priceOK = false
+		priceOK = "0"
 	} else if scn.price != "all" && scn.price != "none" && strings.Contains(c.needs, scn.price) {
-		priceOK = false
+		priceOK = "p"
+		if c.needs == scn.price {
+			priceOK = "0"
+		}
 	}
 	tr.Line("grd.begin", c.handler, scnName)
-	tr.Line("grd.msg", c.handler, scnName, b01(owner), b01(c.names), b01(admin), b01(scn.brk), scn.esm, b01(priceOK), b01(base),
+	tr.Line("grd.msg", c.handler, scnName, b01(owner), b01(c.names), b01(admin), b01(scn.brk), scn.esm, priceOK, b01(base),
 		r.outcome, b01(r.parentEmpty), b01(r.branchClean), b01(r.victimSame))
 	tr.Count("msg:" + c.handler + ":" + r.outcome)
 	if base {
@@ -829,6 +842,108 @@ func TestC12(t *testing.T) {
 	}
 	c12KillSwitch(t, tr, w)
 	c12Wasm(t, tr, w)
+	if thorough() {
+		c12DeliverTx(t, tr)
+	}
+}
+
+// c12DeliverTx (thorough tier): the same position-naming messages, SIGNED and pushed through the real BaseApp.DeliverTx
+// (ante handler, runMsgs with baseapp's own message cache) — transaction atomicity is exercised here, not re-enacted.
+// DeliverTx works on the block state itself, so every case gets a world of its own. The only store entries a rejected
+// transaction may touch are the signer's own auth account record (sequence / public key are set by the ante handler
+// before the messages run) and wasmd's per-block transaction counter; they are taken out of the diff and nothing else.
+func c12DeliverTx(t *testing.T, tr *Trace) {
+	for ci, c := range c12Catalogue() {
+		if !c.names || c.owner != "A" {
+			continue
+		}
+		for _, signer := range []string{"A", "B", "D"} {
+			c12TxCase(t, tr, c, signer, fmt.Sprintf("tx/%d/%s", ci, signer), c12Scn{esm: "none", price: "all"}, signer == c.owner)
+		}
+	}
+}
+
+// c12TxCase: a world of its own, a real BeginBlock, the scenario's controls written to the block state, one signed
+// transaction through BaseApp.DeliverTx, full-state diff.
+func c12TxCase(t *testing.T, tr *Trace, c c12Case, signer, scnName string, scn c12Scn, base bool) {
+	txCfg := chain.MakeEncodingConfig().TxConfig
+	rnd := rand.New(rand.NewSource(int64(seed())))
+	w := c12Build(t)
+	hdr := tmproto.Header{Height: w.app.LastBlockHeight() + 1, Time: w.ctx.BlockTime().Add(time.Minute)}
+	w.app.BeginBlock(abci.RequestBeginBlock{Header: hdr})
+	ctx := w.app.BaseApp.NewContext(false, hdr)
+	// the market BeginBlocker found no fresh band-oracle data and switched the prices off: feed them again
+	for _, id := range []uint64{w.a1, w.a2, w.a3, w.c1, w.c2, w.c3} {
+		twa, _ := w.app.MarketKeeper.GetTwa(ctx, id)
+		twa.IsPriceActive = true
+		w.app.MarketKeeper.SetTwa(ctx, twa)
+	}
+	appID := w.appOf(c)
+	if scn.brk {
+		w.must(w.app.EsmKeeper.SetKillSwitchData(ctx, esmtypes.KillSwitchParams{AppId: appID, BreakerEnable: true}), "breaker")
+	}
+	if scn.esm != "none" {
+		end := hdr.Time.Add(time.Hour)
+		if scn.esm == "after" {
+			end = hdr.Time.Add(-time.Second)
+		}
+		w.app.EsmKeeper.SetESMStatus(ctx, esmtypes.ESMStatus{AppId: appID, Executor: w.B.String(), Status: true, StartTime: hdr.Time.Add(-2 * time.Hour), EndTime: end})
+	}
+	if scn.price != "all" {
+		for name, id := range map[string]uint64{"a1": w.a1, "a2": w.a2, "a3": w.a3} {
+			if scn.price == "none" || scn.price == name {
+				twa, _ := w.app.MarketKeeper.GetTwa(ctx, id)
+				twa.IsPriceActive = false
+				w.app.MarketKeeper.SetTwa(ctx, twa)
+			}
+		}
+	}
+	who := w.actor(signer)
+	acc := w.app.AccountKeeper.GetAccount(ctx, who)
+	if acc == nil {
+		t.Fatalf("no account for %s", signer)
+	}
+	msg := c.mk(w, who)
+	tx, err := simtestutil.GenSignedMockTx(rnd, txCfg, []sdk.Msg{msg}, sdk.NewCoins(), 1900000, "", []uint64{acc.GetAccountNumber()}, []uint64{acc.GetSequence()}, c12Key(signer))
+	if err != nil {
+		t.Fatalf("sign: %v", err)
+	}
+	bz, err := txCfg.TxEncoder()(tx)
+	if err != nil {
+		t.Fatalf("encode: %v", err)
+	}
+	before := w.dump(ctx)
+	vb := w.victimProj(ctx)
+	var res abci.ResponseDeliverTx
+	panicked, _ := try(func() { res = w.app.DeliverTx(abci.RequestDeliverTx{Tx: bz}) })
+	outcome := "ok"
+	if panicked {
+		outcome = "panic"
+	} else if res.Code != 0 {
+		outcome = "err"
+	}
+	after := w.dump(ctx)
+	// remove the signer's auth account record (sequence, pubkey) and wasmd's tx counter from both dumps
+	for _, m := range []map[string]string{before, after} {
+		for k := range m {
+			if strings.HasPrefix(k, "acc/") && bytes.Contains([]byte(k), who.Bytes()) {
+				delete(m, k)
+			}
+			if k == "wasm/"+string(wasmtypes.TXCounterPrefix) {
+				delete(m, k)
+			}
+		}
+	}
+	changed := diffStores(before, after)
+	r := c12Result{outcome: outcome, parentEmpty: len(changed) == 0, branchClean: true, victimSame: signer == c.owner || w.victimProj(ctx) == vb, changed: changed, errText: res.Log}
+	w.emit(tr, c, scnName, signer, false, scn, base, r)
+	tr.Count("delivertx:" + scnName[:2] + ":" + outcome)
+	if base && outcome != "ok" {
+		t.Logf("DeliverTx %s: baseline %s failed: %s", scnName, c.handler, res.Log)
+	}
+	if !base && signer != c.owner && (outcome == "ok" || !r.parentEmpty) {
+		t.Logf("DeliverTx %s: %s by %s: %s changed=%v", scnName, c.handler, signer, outcome, changed)
+	}
 }
 
 func c12KillSwitch(t *testing.T, tr *Trace, w *c12World) {
@@ -1065,6 +1180,23 @@ func TestC14(t *testing.T) {
 		}
 	}
 	c14Sweeps(t, tr, w)
+	if thorough() {
+		// the same control settings through the real DeliverTx (baseapp's own message cache) for every handler the property names
+		for ci, c := range cat {
+			scns := []c12Scn{{brk: true, esm: "none", price: "all"}}
+			if c.app == "vault" {
+				scns = append(scns, c12Scn{esm: "in", price: "all"}, c12Scn{esm: "after", price: "all"})
+			}
+			if c.needs != "" {
+				scns = append(scns, c12Scn{esm: "none", price: "none"})
+			}
+			scns = append(scns, c12Scn{esm: "none", price: "all"})
+			for si, scn := range scns {
+				base := !scn.brk && scn.esm == "none" && scn.price == "all"
+				c12TxCase(t, tr, c, c.owner, fmt.Sprintf("txctl/%d/%d/brk%s/esm-%s/price-%s", ci, si, b01(scn.brk), scn.esm, scn.price), scn, base)
+			}
+		}
+	}
 }
 
 // sweepStage: an unhealthy vault and borrow (collateral price drop), liquidation enabled in both generations, auction
